@@ -19,9 +19,19 @@ package nsqadmin
 //@   ensures result != nil && result == curOpts
 //@   modifies
 //@   nochan
+// (round 5, area H) swapOpts is VERIFIED against the atomic.Value model of .trusted/r4E.spec (one global epoch r4EAtomTick counts the Store
+// calls; the content of a cell is r4EAtomAt(cell, epoch)): the options handed in are what the cell n.opts holds afterwards.
+// getOpts stays a trusted stub: "the cell holds curOpts" is an invariant of the program (established by New's swapOpts, kept by doConfig's),
+// but the handlers call the frame-less fan-out functions of clusterinfo (after which no ghost is known), so it cannot be carried as a
+// precondition; curOpts is by definition what the next getOpts returns.
+//@ ghostgroup[lead] optSwaps, r4EAtomTick
 //@ func (n *NSQAdmin) swapOpts(opts *Options)
-//@   trusted
-//@   modifies
+//@   props C17
+//@   nochan
+//@   requires n != nil
+//@   ensures[stored] dyntype(r4EAtomAt(&n.opts, r4EAtomTick)) == typetag("*Options") && unbox(r4EAtomAt(&n.opts, r4EAtomTick), "*Options") == opts
+//@   ensures[one-store] r4EAtomTick == old(r4EAtomTick) + 1
+//@   modifies curOpts, optSwaps
 //@   onreturn curOpts := opts
 //@   onreturn optSwaps := optSwaps + 1
 //@ func getOptByCfgName(opts interface{}, name string) (interface{}, bool)
@@ -60,19 +70,43 @@ package nsqadmin
 //@ pred did(op string, topic string, channel string) := (ciCalls == old(ciCalls) + 1 && ciLastOp == op && ciLastTopic == topic && ciLastChannel == channel)
 
 //@ func maybeWarnMsg(msgs []string) string
-//@   props C17
+//@   props C17 C18
+//   (round 5, area H) the views carry a warning exactly when a (partial) failure was recorded: no message => empty text, any message => a
+//   non-empty text (it starts with "WARNING: ").
+//@   ensures[no-warning-without-a-failure] len(msgs) == 0 ==> result == ""
+//@   ensures[warning-when-something-failed] len(msgs) > 0 ==> result != "" && len(result) >= 9
 //@   modifies
+//@   nochan
 
-// Counts the notifications; the body (builds an AdminAction and hands it to a goroutine) is not verified.
+// Counts the calls of notifyAdminAction (adminNotifications).
+// (round 5, area H) the body is VERIFIED now: with no --notification-http-endpoint nothing is started; otherwise exactly one goroutine is
+// started (r5HNotifySpawns, recorded at the `go` statement) that hands ONE AdminAction to the notification pump (notifyAdminAction$1).
+// NOT stated (engine gap, notes.md): that the action carries the names of THIS call - `onspawn` cannot name the captured variable `a`, and
+// `final(a)` is rejected because `a` is not in scope at the early return.
 //@ ghost adminNotifications int
+//@ ghost r5HNotifySpawns int
+//@ ghostgroup adminNotifications, r5HNotifySpawns
 //@ func (s *httpServer) notifyAdminAction(action string, topic string, channel string, node string, req *http.Request)
-//@   trusted
-//@   modifies lastNow, hdrKey, hdrVal
+//@   props C17
+//@   requires validS(s) && req != nil
+//@   requires[server-request] req.URL != nil
+//@   ensures[no-endpoint-no-notification] curOpts.NotificationHTTPEndpoint == "" ==> r5HNotifySpawns == old(r5HNotifySpawns)
+//@   ensures[one-notification] curOpts.NotificationHTTPEndpoint != "" ==> r5HNotifySpawns == old(r5HNotifySpawns) + 1
+//@   modifies lastNow, hdrKey, hdrVal, adminNotifications
 //@   onreturn adminNotifications := adminNotifications + 1
+// the goroutine: one send of the action on the daemon's notification channel
+//@ func (s *httpServer) notifyAdminAction$1()
+//@   props C17
+//@   requires s != nil && s.nsqadmin != nil
+//@   onspawn r5HNotifySpawns := r5HNotifySpawns + 1
+//@   ensures[handed-to-the-pump] sent(s.nsqadmin.notifications) == old(sent(s.nsqadmin.notifications)) + 1 && lastsent(s.nsqadmin.notifications) == a
+//@   modifies
 
 //@ func (s *httpServer) deleteTopicHandler(w http.ResponseWriter, req *http.Request, ps httprouter.Params) (interface{}, error)
 //@   props C17
 //@   requires validS(s) && req != nil
+//   (round 5, area H) notifyAdminAction is verified now and reads req.URL: a server request always has one (net/http)
+//@   requires[server-request] req.URL != nil
 //@   ensures[not-admin-403] !admin() ==> result0 == nil && forbidden(result1)
 //@   ensures[not-admin-no-upstream] !admin() ==> untouched()
 //@   ensures[admin-carried-out] admin() ==> did("DeleteTopic", paramByName(ps, "topic"), "")
@@ -83,6 +117,8 @@ package nsqadmin
 //@ func (s *httpServer) deleteChannelHandler(w http.ResponseWriter, req *http.Request, ps httprouter.Params) (interface{}, error)
 //@   props C17
 //@   requires validS(s) && req != nil
+//   (round 5, area H) notifyAdminAction is verified now and reads req.URL: a server request always has one (net/http)
+//@   requires[server-request] req.URL != nil
 //@   ensures[not-admin-403] !admin() ==> result0 == nil && forbidden(result1)
 //@   ensures[not-admin-no-upstream] !admin() ==> untouched()
 //@   ensures[admin-carried-out] admin() ==> did("DeleteChannel", paramByName(ps, "topic"), paramByName(ps, "channel"))
@@ -94,6 +130,8 @@ package nsqadmin
 //@ func (s *httpServer) tombstoneNodeForTopicHandler(w http.ResponseWriter, req *http.Request, ps httprouter.Params) (interface{}, error)
 //@   props C17
 //@   requires validS(s) && req != nil
+//   (round 5, area H) notifyAdminAction is verified now and reads req.URL: a server request always has one (net/http)
+//@   requires[server-request] req.URL != nil
 //@   ensures[not-admin-403] !admin() ==> result0 == nil && forbidden(result1)
 //@   ensures[not-admin-no-upstream] !admin() ==> untouched()
 //@   ensures[admin-carried-out] admin() && result1 == nil ==> ciCalls == old(ciCalls) + 1 && ciLastOp == "TombstoneNodeForTopic" && ciLastChannel == paramByName(ps, "node")
@@ -105,6 +143,8 @@ package nsqadmin
 //@ func (s *httpServer) createTopicChannelHandler(w http.ResponseWriter, req *http.Request, ps httprouter.Params) (interface{}, error)
 //@   props C17
 //@   requires validS(s) && req != nil
+//   (round 5, area H) notifyAdminAction is verified now and reads req.URL: a server request always has one (net/http)
+//@   requires[server-request] req.URL != nil
 //@   ensures[not-admin-403] !admin() ==> result0 == nil && forbidden(result1)
 //@   ensures[not-admin-no-upstream] !admin() ==> untouched()
 //@   ensures[admin-carried-out] admin() && result1 == nil ==> ciCalls == old(ciCalls) + 1 && ciLastOp == "CreateTopicChannel"
@@ -119,6 +159,8 @@ package nsqadmin
 //@ func (s *httpServer) topicChannelAction(req *http.Request, topicName string, channelName string) (interface{}, error)
 //@   props C17
 //@   requires validS(s) && req != nil
+//   (round 5, area H) notifyAdminAction is verified now and reads req.URL: a server request always has one (net/http)
+//@   requires[server-request] req.URL != nil
 //@   ensures[not-admin-403] !admin() ==> result0 == nil && forbidden(result1)
 //@   ensures[not-admin-no-upstream] !admin() ==> untouched()
 //@   ensures[admin-carried-out] admin() && result1 == nil ==> ciCalls == old(ciCalls) + 1 && ciLastTopic == topicName && ciLastChannel == channelName && (channelName == "" ? actionOp(ciLastOp) : actionOpCh(ciLastOp))
@@ -132,6 +174,8 @@ package nsqadmin
 //@ func (s *httpServer) topicActionHandler(w http.ResponseWriter, req *http.Request, ps httprouter.Params) (interface{}, error)
 //@   props C17
 //@   requires validS(s) && req != nil
+//   (round 5, area H) notifyAdminAction is verified now and reads req.URL: a server request always has one (net/http)
+//@   requires[server-request] req.URL != nil
 //@   ensures[not-admin-403] !admin() ==> result0 == nil && forbidden(result1)
 //@   ensures[not-admin-no-upstream] !admin() ==> untouched()
 //@   ensures[admin-carried-out] admin() && result1 == nil ==> ciCalls == old(ciCalls) + 1 && ciLastTopic == paramByName(ps, "topic") && ciLastChannel == "" && actionOp(ciLastOp)
@@ -141,6 +185,8 @@ package nsqadmin
 //@ func (s *httpServer) channelActionHandler(w http.ResponseWriter, req *http.Request, ps httprouter.Params) (interface{}, error)
 //@   props C17
 //@   requires validS(s) && req != nil
+//   (round 5, area H) notifyAdminAction is verified now and reads req.URL: a server request always has one (net/http)
+//@   requires[server-request] req.URL != nil
 //@   ensures[not-admin-403] !admin() ==> result0 == nil && forbidden(result1)
 //@   ensures[not-admin-no-upstream] !admin() ==> untouched()
 //@   ensures[admin-carried-out] admin() && result1 == nil ==> ciCalls == old(ciCalls) + 1 && ciLastTopic == paramByName(ps, "topic") && ciLastChannel == paramByName(ps, "channel") && (paramByName(ps, "channel") == "" ? actionOp(ciLastOp) : actionOpCh(ciLastOp))
